@@ -43,7 +43,9 @@ func Run(c *hx.Ctx) {
 		}
 	}
 	if only == "" || only == "up" {
-		for i := 0; i < c.N(6, 12); i++ {
+		// boundary replayed on every run: inherited bytes that fill the new read buffer exactly (minimised past failure)
+		runUP(c, upCase{half: 64, idle: 1, wait: 0, h1: 0})
+		for i := 0; i < c.N(5, 12); i++ {
 			runUP(c, genUP(c, i))
 		}
 	}
@@ -65,7 +67,12 @@ func Run(c *hx.Ctx) {
 		}
 	}
 	if only == "" || only == "gs" {
-		for i := 0; i < c.N(45, 75); i++ {
+		// boundary replayed on every run (minimised past failure): a second request with a body begun on a multiplexed
+		// connection right after the signal, while the first one is still waiting for the upstream
+		for _, p := range []string{"h2", "bolt"} {
+			runGS(c, gsCase{proto: p, stage: 8, phase: "wait", drain: 20, hold: 9, extra: true})
+		}
+		for i := 0; i < c.N(43, 75); i++ {
 			runGS(c, genGS(c, i))
 		}
 	}
